@@ -163,6 +163,8 @@ def _decimals(text):
 
 def describe(content: bytes, names):
     """Abstract a real file to the model's symbolic bytes."""
+    if content == b"":
+        return {"foreign": 0}
     m = re.fullmatch(rb"foreign-(\d+)\n", content)
     if m:
         return {"foreign": int(m.group(1))}
@@ -331,7 +333,7 @@ def run_case(ctx, case, model=True):
     os.makedirs(refdir)
     for p, k in case["pre"]:
         with open(os.path.join(work, p), "wb") as f:
-            f.write(b"foreign-%d\n" % k)
+            f.write(b"" if k == 0 else b"foreign-%d\n" % k)       # foreign file number 0 is an EMPTY existing file
     cwd = os.getcwd()
     os.chdir(work)
     g_before = precision.decimals
@@ -601,7 +603,7 @@ def gen_case(ctx):
     for k in range(r.choice([0, 0, 1, 2])):
         p = r.choice(POOL + [inputs[0]["name"] + ".xml", inputs[0]["name"]])
         if p not in [q for q, _ in pre]:
-            pre.append([p, k])
+            pre.append([p, 0 if r.random() < 0.3 else k + 1])        # 0: an existing file of zero bytes
     return {"g0": r.choice([4, 4, 7]), "inputs": inputs, "pre": pre, "ops": ops}
 
 
